@@ -162,7 +162,8 @@ Section Paraxial.
                       (* carried on from the first surface to the object plane (inverted coordinates) *)
                       let n := length inv in
                       let yobj := add yl (mul ul (sub (pos inv (n - 1)) (pos inv (n - 2)))) in
-                      div (mul u01 max_field) yobj
+                      (* aimed at -max_field in the reversed system so that the forward chief ray starts at +max_field *)
+                      div (mul (neg u01) max_field) yobj
                   | FAngle => div (mul u01 (tan_ (div (mul max_field pi_) (ofZ 180)))) ul
                   end in
         let rn := tg ss (ofZ 0) u1 z0 true (S si) in
